@@ -234,7 +234,7 @@ STRUCT = {
             "11 parameter lists (lifetimes, bounded / defaulted / const parameters) x 8 counterpart paths (generic, lifetime, foreign and repeated lifetime arguments) x 12 conversion kinds x 4 where_clause settings"),
     "c01": ("struct_init_block / struct_init_block_inner: which members are rendered, skipped, and how the body is delimited",
             "From: every own field receives exactly its designated counterpart value; Into / into_existing: exactly the designated counterpart fields are written, each once, ghosts skipped, bare parents poured once, struct-level ghosts added",
-            "all member sequences of length 1..3 over 10 member forms (plain, renamed, expression, both, from/into pair, ghost, child, nested child + rename, `@`/`~` expressions, bare parent) x with / without struct-level ghosts: 2,220 structs x 6 impls, against an oracle written from the statement; plus all 256 tuple structs of 4 members over {plain, expression, ghost, bare parent} x {B, B as ()}: Into writes position k for the k-th rendered member, in the literal and in the `obj.k = ..` form"),
+            "all member sequences of length 1..3 over 10 member forms (plain, renamed, expression, both, from/into pair, ghost, child, nested child + rename, `@`/`~` expressions, bare parent) x with / without struct-level ghosts: 2,220 structs x 6 impls, against an oracle written from the statement; plus all 256 tuple structs of 4 members over {plain, expression, ghost, bare parent} x {B, B as ()}: Into writes position k for the k-th rendered member, in the literal and in the `obj.k = ..` form; plus 4,116 three-member structs (tuple, and named onto `B as ()`) over 7 forms that designate a counterpart position (#[map(i)], #[map(i, e)], #[as_type(i, T)], #[from(i, e)] and the undesignated forms) x 6 index permutations: From reads `value.<designated position>`"),
     "c02": ("render_enum_line -> struct_init_block (payload constructor, an assumed callee) -> render_struct_line, enum_init_block(_inner), variant_destruct_block end to end",
             "every arm matches the (renamed) variant with the pattern that binds exactly the fields the other side has, and builds the variant with exactly the designated payload: same-named / renamed / expression / ghost default, running positions for tuple payloads",
             "enums with a named-payload, a tuple-payload and a unit variant; named payloads: all sequences of length 1..3 over 6 member forms; tuple payloads: sequences over 4 forms; with and without variant renames: 492 enums x 4 impls, whole fn bodies compared with an oracle written from the statement"),
